@@ -233,8 +233,8 @@ func destEW(prop string, r *rng, emit func(string)) {
 			for _, ld := range []string{"rm", "T", "stepslice", "slice", "cm", "cmslice", "rmT"} {
 				for _, form := range forms {
 					for _, mode := range []string{"reuse", "incr"} {
-						if strings.HasPrefix(form, "fma") && (mode == "incr" || dt != "f64") {
-							continue
+						if strings.HasPrefix(form, "fma") && (mode == "incr" || dt != "f64" || ld == "rmT") {
+							continue // (FMA's y is an operand too: another shape is a mismatch, not a destination to reshape)
 						}
 						if strings.HasPrefix(form, "cmp") && mode == "incr" {
 							continue
